@@ -185,6 +185,28 @@ PROPS = {
                       'multiple of pi/2 and of all SmartRotation3D::init sequences to depth 4',
         'level_note': 'holds for the lattice values; tolerances stated in evidence bounds',
     },
+    'C11': {
+        'sources': ['src/geometry/Pose3D.cpp', 'src/geometry/Pose2D.cpp', 'src/geometry/Position2D.cpp', 'src/geometry/Position3D.cpp',
+                    'src/geometry/Twist3D.cpp', 'src/geometry/Twist2D.cpp', 'src/geometry/PoseAndTwist3D.cpp', 'src/geometry/PoseAndTwist2D.cpp',
+                    'src/geometry/Ellipse.cpp', 'src/transform/SmartRotation3D.cpp'],
+        'harness': 'c11_poses.cpp',
+        'flavour': 'plain',
+        'level': 'exploration',
+        'engine': 'lattice',
+        'rule': 'full lattices: (covariance catalogue x attitude x position) through every 3D->2D reduction and the '
+                'se2<->se3 embedding (exact comparison); (rigid transform x attitude x position) for the group action incl. '
+                'compositions, attitudes compared as rotations against a long-double reference; (eigenvalue pair x axis '
+                'angle x sigma x entry point) for the uncertainty ellipse. non-trivial = every reduction case; group-action '
+                'cases with a non-planar transform or within 0.02 rad of gimbal lock; ellipses that are rank-deficient or '
+                'not axis-aligned.',
+        'assumptions': ['cases within 1e-3 rad of gimbal lock before or after the transform are outside the quantifier and skipped'],
+        'tiers': {'quick': {'deadline': 300}, 'thorough': {'deadline': 3000}},
+        'technique': 'bounded-exhaustive lattice enumeration on the real code with long-double reference rotations and exact component-selection oracle',
+        'level_text': 'complete enumeration of the stated catalogues (PSD covariances incl. rank-deficient, attitudes up to '
+                      '1.5e-3 rad from gimbal lock, 27 rigid transforms and their compositions, rotated and singular 2x2 '
+                      'covariances) through every conversion the property names',
+        'level_note': 'catalogue values only; attitude tolerance grows as 1/cos(pitch)',
+    },
 }
 
 ENGINES = [
